@@ -77,6 +77,7 @@ def run(ctx):
     from rules import c03_border_offsets
     c03_border_offsets.run(ctx, ctx.crate("rel"))
     c03_border_offsets.tiebreaks(ctx, ctx.crate("rel"))
+    c03_border_offsets.recursion_args(ctx, ctx.crate("rel"))
     from rules.c03_vertices import cardinal_set
     cardinal_set(ctx, ctx.crate("rel"))
     from rules.c03_vertices import grid_ranges
